@@ -16,7 +16,15 @@
 
 enum { K_COMMIT = 2, K_ATTEMPT = 1 };
 
-enum OpK { ADD_EDGE, ADD_MULTI, REMOVE_EDGE, REMOVE_NODE, UPDATE_DATA, ADD_NODE };
+enum OpK {
+  ADD_EDGE,
+  ADD_MULTI,
+  REMOVE_EDGE,
+  REMOVE_NODE,
+  UPDATE_DATA,
+  ADD_NODE,
+  ADD_EDGE_BARE // addEdge with NOTHING acquired beforehand (no containsNode guard)
+};
 struct Op {
   OpK k;
   int u, v; // node indices (0..2 pre-existing, 3.. created by ADD_NODE)
@@ -73,6 +81,12 @@ struct World {
             g.getEdgeData(e) = o.val;
         }
         break;
+      case ADD_EDGE_BARE: {
+        auto e = g.addEdge(u, v);
+        if (g.getEdgeData(e) == 0)
+          g.getEdgeData(e) = o.val;
+        break;
+      }
       case ADD_MULTI:
         if (g.containsNode(u) && g.containsNode(v))
           g.addMultiEdge(u, v, galois::MethodFlag::WRITE, o.val);
@@ -255,10 +269,10 @@ static std::vector<MProg> programs() {
                                {{REMOVE_NODE, 1, 1, 0}},
                                {{ADD_EDGE, 1, 2, 12}, {ADD_EDGE, 0, 2, 13}}}});
   // single-call iterations: conflicts strike inside the graph method
-  v.push_back({"single-calls", {{{ADD_EDGE, 0, 1, 10}},
-                                {{ADD_EDGE, 1, 0, 20}},
-                                {{ADD_EDGE, 1, 2, 30}},
-                                {{ADD_EDGE, 2, 0, 40}}}});
+  v.push_back({"single-calls", {{{ADD_EDGE_BARE, 0, 1, 10}},
+                                {{ADD_EDGE_BARE, 1, 0, 20}},
+                                {{ADD_EDGE_BARE, 1, 2, 30}},
+                                {{ADD_EDGE_BARE, 2, 0, 40}}}});
   v.push_back({"single-remove", {{{ADD_EDGE, 0, 1, 10}, {ADD_EDGE, 2, 1, 11}},
                                  {{REMOVE_EDGE, 0, 1, 0}},
                                  {{ADD_EDGE, 1, 2, 12}},
